@@ -402,7 +402,13 @@ def twin_history(r):
                    "alignment": -1, "bad": "none"})
     pre = tuple(r.choice(["ch", "a", 7]) for _ in range(r.choice([0, 1, 1, 2])))
     n = r.choice([0, 1, 2])
-    twins = [pre + (n, r.choice(["ctrl", "x"])), pre + (str(n), r.choice(["data", "y"]))]
+    shape = r.choice(["equal", "equal", "short-int", "short-str"])
+    if shape == "equal":
+        twins = [pre + (n, r.choice(["ctrl", "x"])), pre + (str(n), r.choice(["data", "y"]))]
+    elif shape == "short-int":
+        twins = [pre + (n,), pre + (str(n), r.choice(["ctrl", "x"]))]         # ('bank', 0) next to ('bank', '0', 'ctrl')
+    else:
+        twins = [pre + (str(n),), pre + (n, r.choice(["ctrl", "x"]))]
     r.shuffle(twins)
     others = [pre + (r.choice(["b", "zz", 5]),), (r.choice(["q", 9]),)]
     first = twins[:1] + others[:r.randint(0, 2)] + twins[1:]
@@ -412,7 +418,7 @@ def twin_history(r):
     if via_child:
         do({"call": "add_window", "m": 1, "w": 2, "name": [], "addr": -1, "sparse": "none", "bad": "none"})
     queries = [pre + (str(n),), pre + (n,), twins[0] + ("more",), twins[1] + (0,), twins[0], twins[1], pre + (n, "fresh"),
-               pre + (str(n), 0)] + ([pre] if pre else [])
+               pre + (str(n), 0), pre + (n, "data"), pre + (str(n), "data"), pre + (n, "data", 1)] + ([pre] if pre else [])
     r.shuffle(queries)
     for q in queries:
         add(1, q)
